@@ -50,6 +50,20 @@ Theorem C19_module_framing : forall secs,
     split_module (wasm_preamble ++ write_sections secs) = Some secs.
 Proof. exact module_framing_roundtrip. Qed.
 
+(** body sizes and export entries: the payload of a code section (count, then every body behind its size) and of an
+    export section (count, then name / kind byte / index) are recovered for any number of bodies and exports;
+    the correspondence requires every emitted code / export payload to EQUAL these writers applied to what was decoded *)
+Theorem C19_code_section_roundtrip : forall bodies,
+    decode_code_section (write_code_payload bodies) = Some bodies.
+Proof. exact code_section_roundtrip. Qed.
+
+Theorem C19_export_section_roundtrip : forall es, forallb export_ok es = true ->
+    decode_export_section (write_export_payload es) = Some es.
+Proof. exact export_section_roundtrip. Qed.
+
+Example C19_export_premise_met : forallb export_ok [([102; 228; 8364], 0, 3); ([], 0, 0)] = true.
+Proof. reflexivity. Qed.
+
 (** non-vacuity: concrete values at group and sign boundaries *)
 Example C19_examples :
   Gen_WasmPack.pack_integer 624485 = [229; 142; 38] /\ Gen_WasmPack.pack_signed (-123456) = [192; 187; 120] /\
@@ -64,4 +78,6 @@ Eval compute in "ASSUMPTIONS C19_bytes_vec_roundtrip"%string. Print Assumptions 
 Eval compute in "ASSUMPTIONS C19_name_roundtrip"%string. Print Assumptions C19_name_roundtrip.
 Eval compute in "ASSUMPTIONS C19_section_roundtrip"%string. Print Assumptions C19_section_roundtrip.
 Eval compute in "ASSUMPTIONS C19_module_framing"%string. Print Assumptions C19_module_framing.
+Eval compute in "ASSUMPTIONS C19_code_section_roundtrip"%string. Print Assumptions C19_code_section_roundtrip.
+Eval compute in "ASSUMPTIONS C19_export_section_roundtrip"%string. Print Assumptions C19_export_section_roundtrip.
 Eval compute in "END"%string.
